@@ -17,6 +17,7 @@ import (
 	"sync"
 	"time"
 
+	"github.com/saucelabs/forwarder"
 	"github.com/saucelabs/forwarder/ratelimit"
 	"golang.org/x/time/rate"
 
@@ -219,6 +220,30 @@ func optLim(l *rate.Limiter) string {
 	return fmt.Sprintf("(Some (%s, %s))", z(int64(math.Round(float64(l.Limit())))), z(int64(l.Burst())))
 }
 
+type wcaseJSON struct {
+	Kind string `json:"kind"`
+	RL   string `json:"rl"` // CLI spelling
+	WL   string `json:"wl"`
+}
+
+// runWrapCase goes through SizeSuffix.Set and forwarder.Listener.Listen (net.go).
+func runWrapCase(c wcaseJSON) string {
+	var rl, wl forwarder.SizeSuffix
+	if err := rl.Set(c.RL); err != nil {
+		panic(err)
+	}
+	if err := wl.Set(c.WL); err != nil {
+		panic(err)
+	}
+	l := &forwarder.Listener{ListenerConfig: forwarder.ListenerConfig{Address: "127.0.0.1:0", ReadLimit: rl, WriteLimit: wl}}
+	if err := l.Listen(); err != nil {
+		panic(err)
+	}
+	defer l.Close()
+	wrapped, rx, tx := forwarder.VerifRateLimiters(l)
+	return fmt.Sprintf("{| wc_rl := %s; wc_wl := %s; wc_wrapped := %s; wc_rx := %s; wc_tx := %s |}", z(int64(rl)), z(int64(wl)), cbool(wrapped), optLim(rx), optLim(tx))
+}
+
 func runMappingCase(c mcaseJSON) string {
 	l := ratelimit.NewListener(&fakeListener{}, c.RL, c.WL)
 	rx, tx := ratelimit.VerifLimiters(l)
@@ -385,6 +410,7 @@ type meta struct {
 	LimiterGrant  int            `json:"limiter_ops_granted"`
 	LimiterWaited int            `json:"limiter_ops_with_wait"`
 	MappingCases  int            `json:"mapping_cases"`
+	WrapCases     int            `json:"wrap_cases"`
 	ConnCases     int            `json:"conn_cases"`
 	E2ECases      int            `json:"e2e_cases"`
 	E2E           []e2eResult    `json:"e2e"`
@@ -411,6 +437,7 @@ func main() {
 	var lcs []lcaseJSON
 	var mcs []mcaseJSON
 	var ccs []ccaseJSON
+	var wcs []wcaseJSON
 	var ecs []e2eSpec
 
 	if *replay != "" {
@@ -433,6 +460,10 @@ func main() {
 			var c mcaseJSON
 			json.Unmarshal(data, &c)
 			mcs = append(mcs, c)
+		case "wrap":
+			var c wcaseJSON
+			json.Unmarshal(data, &c)
+			wcs = append(wcs, c)
 		case "conn":
 			var c ccaseJSON
 			json.Unmarshal(data, &c)
@@ -464,6 +495,12 @@ func main() {
 		for _, a := range lims {
 			for _, b := range lims {
 				mcs = append(mcs, mcaseJSON{"mapping", a, b})
+			}
+		}
+		texts := []string{"off", "OFF", "0", "1", "1B", "1k", "1.5Ki", "1M", "4Mi", "300M", "1G"}
+		for _, a := range texts {
+			for _, b := range texts {
+				wcs = append(wcs, wcaseJSON{"wrap", a, b})
 			}
 		}
 		for _, dir := range []string{"read", "write"} {
@@ -514,6 +551,16 @@ func main() {
 	m.MappingCases = len(mc)
 	m.Shards = append(m.Shards, writeShards(*out, "mcases", "mcase", "mcase_model_ok", "mcase_prop_ok", mc)...)
 	writeJSONL(*out, "mcases.jsonl", mj)
+
+	var wc []string
+	var wj []any
+	for _, c := range wcs {
+		wc = append(wc, runWrapCase(c))
+		wj = append(wj, c)
+	}
+	m.WrapCases = len(wc)
+	m.Shards = append(m.Shards, writeShards(*out, "wcases", "wcase", "wcase_model_ok", "wcase_prop_ok", wc)...)
+	writeJSONL(*out, "wcases.jsonl", wj)
 
 	var cc []string
 	var cj []any
